@@ -85,6 +85,17 @@ def run_k_property(mod, tier, only=None, write=True):
             else:
                 machinery.append(r)
         elif r.status in ("undischarged", "vacuous", "error"):
+            # No verdict from the solver (out of memory / timeout / bound). The harness body is an ordinary deterministic test of the
+            # real code, so a few fixed + seeded input vectors are run natively as well: a run that fails is a real failure and is
+            # reported (clearly labelled: found by native probe, not by the solver); a clean probe proves nothing and changes nothing.
+            if r.status == "undischarged" and not r.h.only:
+                r.failed = r.failed or [("probe", "assertion", "undischarged obligation (no solver verdict)", "")]
+                r.playbacks = []
+                repro = kengine.replay_failures(r)
+                if repro:
+                    repro[0]["check"] = "native probe of an obligation the solver could not decide (%s): %s" % (r.reason[:60], repro[0].get("panic", ""))
+                    violations.append((r, repro[0]))
+                    continue
             undischarged.append(r)
         if r.memdiag:
             memdiag.append(r)
